@@ -303,15 +303,15 @@ def vercmp (a b : Raw) : Ordering :=
 
 /-! ### the operators -/
 
-/-- `debian.Version.tuple()` — also the value `debian.Version.__hash__` hashes -/
+/-- `debian.Version.tuple()` -/
 def tuple (r : Raw) : Nat × List Char × List Char := (r.epoch, r.upstream, r.revision)
 
 /-- The hand-written dunders of `debian.Version` (attrs is told `eq=False, order=False`):
-`__eq__` compares `tuple()`s, `__ne__` negates it, the four others are
-`eval_constraint(self, op, other)` = `operator(compare_versions(self, other), 0)`. -/
+`__eq__` is `compare_version_objects(self, other) == 0`, `__ne__` negates it, the four others
+are `eval_constraint(self, op, other)` = `operator(compare_versions(self, other), 0)`. -/
 def valOps : VOps Raw where
-  eq a b := tuple a == tuple b
-  ne a b := !(tuple a == tuple b)
+  eq a b := vercmp a b == .eq
+  ne a b := !(vercmp a b == .eq)
   lt a b := vercmp a b == .lt
   le a b := vercmp a b != .gt
   gt a b := vercmp a b == .gt
@@ -324,8 +324,56 @@ def verOps : VOps Raw := Univers.Py.attrsOps valOps
 /-- attrs generates `__hash__` from `(value,)`; `debian.Version.__hash__` exists -/
 def hashable : Bool := true
 
-/-- `hash(version)` is a function of `hash(self.value)` = `hash(self.value.tuple())` -/
-def hashKey (r : Raw) : Nat × List Char × List Char := tuple r
+theorem getNonDigitPrefix_head {s : List Char} {c : Char} {cs : List Char}
+    (h : (getNonDigitPrefix s).2 = c :: cs) : c.isDigit = true := by
+  induction s with
+  | nil => simp [getNonDigitPrefix] at h
+  | cons x xs ih =>
+    simp only [getNonDigitPrefix] at h
+    split at h
+    · simp only [List.cons.injEq] at h; rw [← h.1]; assumption
+    · exact ih h
+
+/-- `[int(digits) for digits in re.findall(r"[0-9]+", string)]`: skip the non-digits, read
+the maximal run of digits as a number, go on with what follows.
+(`int` of a run of more than 4300 digits raises `ValueError`: see `hashRaises`.) -/
+def findNumbers (s : List Char) : List Nat :=
+  match _hs : (getNonDigitPrefix s).2 with
+  | [] => []
+  | c :: cs => (getDigitPrefix (c :: cs)).1 :: findNumbers (getDigitPrefix (c :: cs)).2
+termination_by s.length
+decreasing_by
+  have hd := getNonDigitPrefix_head _hs
+  have h1 := getNonDigitPrefix_length s
+  have h2 := digitLoop_length (0 * 10 + (c.toNat - 48)) cs
+  rw [_hs] at h1
+  simp only [getDigitPrefix, digitLoop, hd, if_true]
+  simp only [List.length_cons] at h1
+  omega
+
+/-- `while numbers and not numbers[-1]: numbers.pop()` -/
+def dropTrailingZeros : List Nat → List Nat
+  | [] => []
+  | x :: xs => if dropTrailingZeros xs = [] ∧ x = 0 then [] else x :: dropTrailingZeros xs
+
+/-- `get_significant_numbers(string)` -/
+def getSignificantNumbers (s : List Char) : List Nat := dropTrailingZeros (findNumbers s)
+
+/-- `hash(version)` is a function of `hash(self.value)` =
+`hash((epoch, get_significant_numbers(upstream), get_significant_numbers(revision)))` -/
+def hashKey (r : Raw) : Nat × List Nat × List Nat :=
+  (r.epoch, getSignificantNumbers r.upstream, getSignificantNumbers r.revision)
+
+/-- the longest run of digits in a string -/
+def maxDigitRun (best cur : Nat) : List Char → Nat
+  | [] => max best cur
+  | c :: cs => if c.isDigit then maxDigitRun best (cur + 1) cs else maxDigitRun (max best cur) 0 cs
+
+/-- `hash(version)` raises `ValueError` instead of returning: `get_significant_numbers` calls
+`int()` on every run of digits, and CPython refuses more than 4300 digits (a version such as
+`"1" * 5000` is valid and comparable, but not hashable).  Not visible in `hashKey`. -/
+def hashRaises (r : Raw) : Bool :=
+  maxDigitRun 0 0 r.upstream > 4300 || maxDigitRun 0 0 r.revision > 4300
 
 /-! ### what `construct` establishes -/
 
